@@ -29,8 +29,8 @@ def plan(quick):
     ]
     # half a megabyte in place of every big number / byte string (one case per field name): time must stay bounded
     p += [
-        {"proto": "cmp-sign", "n": 3, "t": 2, "kinds": ["fault"], "alts": ["giant"], "fieldwise": True, "limit": 10 if quick else None},
-        {"proto": "cmp-keygen", "n": 3, "t": 1, "kinds": ["fault"], "alts": ["giant"], "fieldwise": True, "limit": 6 if quick else None},
+        {"proto": "cmp-sign", "n": 3, "t": 2, "kinds": ["fault"], "alts": ["giant"], "fieldwise": True, "minlen": 100, "limit": 8 if quick else None},
+        {"proto": "cmp-keygen", "n": 3, "t": 1, "kinds": ["fault"], "alts": ["giant"], "fieldwise": True, "minlen": 100, "limit": 6 if quick else None},
         {"proto": "frost-keygen", "n": 3, "t": 1, "kinds": ["fault"], "alts": ["giant"], "fieldwise": True},
         {"proto": "doerner-sign", "n": 2, "t": 1, "kinds": ["fault"], "alts": ["giant"], "fieldwise": True},
     ]
